@@ -44,6 +44,9 @@ pub struct CursorChecker<I: RainDbIterator<Key = Vec<u8>, Error = raindb::RainDB
     /// which `status()` is clean must be at the cursor's position.
     pub tolerate_reported_errors: bool,
     pub reported_errors: u64,
+    /// last key the iterator was correctly positioned at / where to seek back to after an error
+    last_key: Option<Vec<u8>>,
+    resync_key: Option<Vec<u8>>,
 }
 
 impl<I: RainDbIterator<Key = Vec<u8>, Error = raindb::RainDBError>> CursorChecker<I> {
@@ -58,6 +61,8 @@ impl<I: RainDbIterator<Key = Vec<u8>, Error = raindb::RainDBError>> CursorChecke
             reversals: 0,
             tolerate_reported_errors: false,
             reported_errors: 0,
+            last_key: None,
+            resync_key: None,
         }
     }
 
@@ -101,7 +106,10 @@ impl<I: RainDbIterator<Key = Vec<u8>, Error = raindb::RainDBError>> CursorChecke
                         op = "seek_to_last".into();
                     }
                     _ => {
+                        // after a reported error: mostly seek straight back to where the iterator was
+                        let back = if rng.chance(0.7) { self.resync_key.take() } else { None };
                         let target: Vec<u8> = match rng.below(10) {
+                            _ if back.is_some() => back.unwrap(),
                             0 => vec![],
                             1 => vec![0xff; 9],
                             2..=5 if !entries.is_empty() => entries[rng.usize_below(entries.len())].0.clone(),
@@ -179,6 +187,7 @@ impl<I: RainDbIterator<Key = Vec<u8>, Error = raindb::RainDBError>> CursorChecke
             if self.tolerate_reported_errors && (seek_failed || self.iter.status().is_some()) {
                 // the error was reported to the caller: nothing is promised about the position
                 self.reported_errors += 1;
+                self.resync_key = self.last_key.clone();
                 if !self.iter.is_valid() || seek_failed {
                     self.pos = None;
                     self.last = Dir::None;
@@ -186,6 +195,9 @@ impl<I: RainDbIterator<Key = Vec<u8>, Error = raindb::RainDBError>> CursorChecke
                 continue;
             }
             let expected = self.pos.map(|i| entries[i].clone());
+            if let Some((k, _)) = &expected {
+                self.last_key = Some(k.clone());
+            }
             let got_valid = self.iter.is_valid();
             let got = if got_valid { self.iter.current().map(|(k, v)| (k.clone(), v.clone())) } else { None };
             let mut problem: Option<&str> = None;
